@@ -63,6 +63,9 @@ type Viol struct {
 	What  string `json:"what"`
 	Sig   string `json:"sig"`
 	Count int64  `json:"count"`
+	// Others: further cases with the same signature (a case of a free-running family may fail to
+	// reproduce on confirmation; the next one is tried then)
+	Others []int64 `json:"others,omitempty"`
 }
 
 type Stats struct {
@@ -121,6 +124,9 @@ func RunJob(j *Job) *Stats {
 			st.ViolCount++
 			if v, ok := sigs[m.Sig]; ok {
 				v.Count++
+				if len(v.Others) < 12 {
+					v.Others = append(v.Others, i)
+				}
 			} else if len(sigs) < 30 {
 				v := &Viol{Index: i, What: m.What, Sig: m.Sig, Count: 1}
 				if f.Describe != nil {
@@ -213,8 +219,12 @@ func RunPlans(rp *hk.Reporter, plans []Plan, budget *hk.Budget, verbose bool) *S
 					for _, o := range total.Viol {
 						if o.Sig == v.Sig {
 							o.Count += v.Count
+							o.Others = append(o.Others, v.Others...)
 							if v.Index < o.Index {
+								o.Others = append(o.Others, o.Index)
 								o.Index, o.Case, o.What = v.Index, v.Case, v.What
+							} else {
+								o.Others = append(o.Others, v.Index)
 							}
 							found = true
 						}
@@ -251,15 +261,32 @@ func RunPlans(rp *hk.Reporter, plans []Plan, budget *hk.Budget, verbose bool) *S
 		f := Lookup(p.Family, p.Params)
 		sort.Slice(total.Viol, func(a, b int) bool { return total.Viol[a].Sig < total.Viol[b].Sig })
 		for _, v := range total.Viol {
-			ok := true
-			for k := 0; k < 3 && ok; k++ {
-				o := f.Run(v.Index)
-				if o.Mismatch == nil || o.Mismatch.Sig != v.Sig {
-					ok = false
+			sort.Slice(v.Others, func(a, b int) bool { return v.Others[a] < v.Others[b] })
+			ok := false
+			for _, idx := range append([]int64{v.Index}, v.Others...) {
+				ok = true
+				what := ""
+				for k := 0; k < 3 && ok; k++ {
+					o := f.Run(idx)
+					if o.Mismatch == nil || o.Mismatch.Sig != v.Sig {
+						ok = false
+					} else {
+						what = o.Mismatch.What
+					}
 				}
+				if ok {
+					if idx != v.Index {
+						v.Index, v.What = idx, what
+						if f.Describe != nil {
+							v.Case = f.Describe(idx)
+						}
+					}
+					break
+				}
+				fmt.Fprintf(os.Stderr, "verifh: case %d of %s did not reproduce (%s)\n", idx, label, v.Sig)
 			}
 			if !ok {
-				fmt.Fprintf(os.Stderr, "verifh: case %d of %s did not reproduce (%s); not reported\n", v.Index, label, v.Sig)
+				fmt.Fprintf(os.Stderr, "verifh: no case of %s with signature %s reproduced three times in a row; not reported\n", label, v.Sig)
 				sum.AllComplete = false
 				continue
 			}
